@@ -308,7 +308,9 @@ func checkC03(w *World, r *Report) {
 	r.include("C03.builtin-", "C20.", "a panic of a builtin reaches catch as an error that still wraps the panic value (the original stays reachable with errors.Is / unwrap-error)", checkC20, func(rule string) bool {
 		// (and an error object a handler hands back as a value stays a value on its way through Apply: it is not
 		// thrown a second time)
-		return rule == "C20.panic" || rule == "C20.apply-verbatim"
+		// ... and an error a builtin returns is an error of the language whatever Go value it is: the adapters decide
+		// "error or not" by comparing with nil, and the evaluator wraps every one of them the same way
+		return rule == "C20.panic" || rule == "C20.apply-verbatim" || rule == "C20.mapped" || rule == "C20.results"
 	})
 	ruleWrap(w, r)
 	rulePropagate(m, r)
@@ -1196,6 +1198,12 @@ func checkC12(w *World, r *Report) {
 	// a splice puts all the elements of its value in place: concat walks all of its arguments (an empty splice in
 	// the middle of a template does not end it)
 	argLoopCompleteRule(w, r, "C12.splice-all")
+	// "its expansion is evaluated in the caller's scope": what an expansion defines stays in the scope of the call
+	// it was written in - every function call gets a scope of its own, also one without parameters
+	scopeNewRule(w, r, "C12.scope-new")
+	// the forms quasiquote writes ((quote x), (concat …), (cons …)) and the (do …) around a closure body mean what
+	// they spell wherever they are evaluated
+	dispatchRules(m, r, "C12")
 	r.rule("C12.unevaluated", "the argument slice handed to the macro function in the expansion loop is a projection (elements from index 1) of the call form: operands are passed unevaluated")
 	r.rule("C12.caller-scope", "the expansion replaces the form before the dispatch, in the caller's scope: macroexpand is called with the current scope, passes that scope to the macro test and to the lookup, and the scope is not changed between expansion and dispatch")
 	r.rule("C12.fixpoint", "macroexpand loops while the macro test holds on the updated form and returns that form; the macroexpand and quasiquoteexpand special forms return expansions unevaluated")
@@ -2456,6 +2464,34 @@ func checkC18(w *World, r *Report) {
 		aud.propagateNil()
 		aud.run()
 		r.floor("C18.stepper-total", "sites that can panic in the shipped stepper", r.count("C18.stepper-total"), 3)
+	}
+	// the code the evaluator runs only under a stepper (its closures and the package functions called from there
+	// alone) is code the program does not run without one: a panic in it is an outcome the unstepped program lacks
+	r.rule("C18.stepping-total", "the functions of the evaluator's package that run only under a stepper (closures created in stepping code, package functions called from stepping code alone) cannot panic on any form or value they are shown: every assertion, index, dereference, division and comparison of interface values in them is guarded")
+	{
+		var roots []*ssa.Function
+		isRoot := map[*ssa.Function]bool{}
+		for _, h := range m.stepHelpers {
+			if !isRoot[h] {
+				isRoot[h] = true
+				roots = append(roots, h)
+			}
+		}
+		for _, fn := range m.evalFuncs() {
+			if fn.Parent() != nil && m.stepBlocks[firstBlock(fn)] && !isRoot[fn] {
+				isRoot[fn] = true
+				roots = append(roots, fn)
+			}
+		}
+		if len(roots) > 0 {
+			aud := newAudit(w, e, r, "C18.stepping-total")
+			aud.cmp = true
+			aud.exempt = exemptionsC18
+			aud.computeClosure(roots, func(f *ssa.Function) bool { return !isRoot[f] })
+			aud.propagateNil()
+			aud.run()
+		}
+		r.add("C18.stepping-total", nil, "functions that run only under a stepper", token.NoPos, "ok", fmt.Sprintf("%d audited", len(roots)))
 	}
 	engineRule(w, r, e)
 	r.Assumptions = append(r.Assumptions, "host-supplied callbacks other than the repository's own debugger engine do not touch interpreter state; output produced by the stepper (ANSWER:/ERROR: lines) is an effect of the debugger, not of the program")
